@@ -56,6 +56,11 @@ def cases(draw, tier):
         n0 = draw(st.sampled_from([511, 512, 513, 600, 1024, 1025]))
         sq = gen.expand_random(draw(st.integers(0, 2 ** 32 - 1)), alpha, n0, 2, draw(st.integers(2, 6)))
         ss = {"kind": gen.expected_kind(sq), "seqs": sq, "shape": "many"}
+    elif draw(st.integers(0, 9)) == 0:
+        # rows longer than the readers' 512-residue buffer increments, so that re-presentations cross them
+        k0, alpha = draw(gen.alphabets())
+        sq = draw(gen.big_family(alpha, min_n=2, max_n=5, max_len=draw(st.sampled_from([530, 700, 1040, 1100]))))
+        ss = {"kind": gen.expected_kind(sq), "seqs": sq, "shape": "long"}
     else:
         ss = draw(gen.seqsets(max_n=40 if not thorough else 120, max_len=200 if not thorough else 700, case=True))
     seqs = ss["seqs"]
@@ -102,6 +107,8 @@ def check(case):
     cl = ["entry=" + case["entry"], "files=%d" % len(chunks)]
     if n >= 512:
         cl.append("n>=512")
+    if max(len(x) for x in seqs) >= 512:
+        cl.append("len>=512")
     for ch in chunks:
         a, b = ch["range"]
         if b - a == 0:
